@@ -38,3 +38,25 @@ def su_no_fallthrough(data, metadata, old):
         return True
     m = uf("call.get_mapping", metadata)
     return not (isinstance(data, dict) and metadata.property_name in data and m)
+
+
+# ---- DiscriminatorEnumCollector._process_discriminated_union, one arbitrary mapping entry (C14): every discriminator value that selects a variant is kept
+from pyvc.contracts import contract as _contract  # noqa: E402
+
+DEC = "pyopenapi_gen.core.parsing.transformers.discriminator_enum_collector:DiscriminatorEnumCollector._process_discriminated_union"
+
+
+def _bucket(d, k):
+    return d[k] if k in d else []
+
+
+_c = _contract(DEC + "#one-mapping-entry", props=["C14"], region_for_target="(disc_value, variant_ref)", region_body_only=True,
+               types={"discriminator_values_by_variant": "dict", "disc_value": "str", "variant_ref": "str", "other": "str"},
+               dict_of_lists={"discriminator_values_by_variant": "setdefault"}, abstract_unsupported=True)
+
+
+@_c.ensures(only_exit="end", note="C14: the value is appended to the values of the variant it maps to (the last component of the reference) — a second value of the "
+                                  "same variant does not replace the first — and the values recorded for every other variant are unchanged")
+def dec_value_kept(discriminator_values_by_variant, disc_value, variant_ref, variant_name, other, old):
+    return (discriminator_values_by_variant[variant_name] == _bucket(old.discriminator_values_by_variant, variant_name) + [disc_value]
+            and (other == variant_name or _bucket(discriminator_values_by_variant, other) == _bucket(old.discriminator_values_by_variant, other)))
